@@ -109,6 +109,8 @@ static FAIL_NEXT_WRITE_FD: AtomicI32 = AtomicI32::new(-1);
 static FIRED: AtomicI64 = AtomicI64::new(-1);
 static CUR_OP: AtomicI64 = AtomicI64::new(-1);
 static FIRED_IN_OP: AtomicI64 = AtomicI64::new(-1);
+static FIRED_KIND: AtomicI32 = AtomicI32::new(0);
+static FIRED_HINT: AtomicBool = AtomicBool::new(false);
 
 // perturbation
 pub const MAX_ROLES: usize = 16;
@@ -274,6 +276,13 @@ extern "C" fn pre_cb(ev: *const Event, act: *mut Action) {
             if n == INJECT_AT.load(SeqCst) {
                 FIRED.store(n, SeqCst);
                 FIRED_IN_OP.store(CUR_OP.load(SeqCst), SeqCst);
+                FIRED_KIND.store(ev.kind, SeqCst);
+                let fname = if ev.kind == EV_OPEN || ev.kind == EV_UNLINK {
+                    rel_of(ev.path).0
+                } else {
+                    fd_name(ev.fd).0
+                };
+                FIRED_HINT.store(fname.ends_with(".hint"), SeqCst);
                 INJECT_AT.store(-1, SeqCst);
                 if ev.kind == EV_WRITE && INJECT_MODE.load(SeqCst) == 1 && ev.len >= 2 {
                     act.action = ACT_SHORT;
@@ -456,13 +465,35 @@ pub fn inject_arm(site: i64, errno: i32, short: bool) {
     INJECT_AT.store(site, SeqCst);
 }
 
-/// Disarm; returns (site that fired, op index it fired in) if the fault fired.
-pub fn inject_disarm() -> Option<(i64, i64)> {
+/// What the injector actually hit.
+#[derive(Clone, Copy, Debug)]
+pub struct Fired {
+    pub site: i64,
+    /// op index announced by the last start marker (-1: between ops)
+    pub op: i64,
+    /// "create" | "write" | "fsync" | "unlink"
+    pub call: &'static str,
+    pub hint_file: bool,
+}
+
+/// Disarm; returns what fired, if the fault fired.
+pub fn inject_disarm() -> Option<Fired> {
     INJECT_AT.store(-1, SeqCst);
     FAIL_NEXT_WRITE_FD.store(-1, SeqCst);
     let f = FIRED.load(SeqCst);
     if f >= 0 {
-        Some((f, FIRED_IN_OP.load(SeqCst)))
+        Some(Fired {
+            site: f,
+            op: FIRED_IN_OP.load(SeqCst),
+            call: match FIRED_KIND.load(SeqCst) {
+                EV_OPEN => "create",
+                EV_WRITE => "write",
+                EV_FSYNC => "fsync",
+                EV_UNLINK => "unlink",
+                _ => "other",
+            },
+            hint_file: FIRED_HINT.load(SeqCst),
+        })
     } else {
         None
     }
